@@ -31,19 +31,19 @@ func (s Scenario) String() string {
 	if s.Final != nil {
 		f = fmt.Sprintf(" then recover(%s,%s)", s.Final.Common, s.Final.Channel)
 	}
-	return fmt.Sprintf("log=%v server=%+v envelope=%q bot=%v v0=%d lazy=%v events=%v%s", s.World.Log, s.World.Server, s.World.Envelope, s.World.Bot, s.World.V0, s.World.Lazy, s.Hist, f)
+	return fmt.Sprintf("log=%v server=%+v envelope=%q bot=%v v0=%d lazy=%v untracked=%v events=%v%s", s.World.Log, s.World.Server, s.World.Envelope, s.World.Bot, s.World.V0, s.World.Lazy, s.World.Untracked, s.Hist, f)
 }
 
 // Play runs a scenario on a fresh world: start-up against an empty server log (the client is in
 // sync), then the log appears (V0 entries, the rest with "grow"), then the events, then the
-// recovery. ok=false if an event of the history is not enabled (cannot happen for histories
+// recovery. The caller must Close the returned world. ok=false if an event of the history is not enabled (cannot happen for histories
 // produced by the exploration).
 func Play(sc Scenario) (w *World, quiescent bool, err error) {
 	log, err := ParseLog(sc.World.Log)
 	if err != nil {
 		return nil, false, err
 	}
-	w, err = NewWorld(sc.World, InitialStore(log), 0)
+	w, err = NewWorld(sc.World, InitialStore(sc.World, log), 0)
 	if err != nil {
 		return nil, false, err
 	}
